@@ -21,7 +21,7 @@ The abstract form is what travels to the Lean model; `source()` prints it as gen
 text (markup or new-style text syntax) for the real code.  Nothing here imports genshi at
 module level (workers stage it first).
 """
-import os, shutil, sys
+import json, os, random, shutil, sys
 
 PY_NS = 'http://genshi.edgewall.org/'
 XI_NS = 'http://www.w3.org/2001/XInclude'
@@ -364,6 +364,32 @@ def on_cycle(g, t):
     return False
 
 
+def load_order(case):
+    """a deterministic shuffle of the case's file names (plus one missing name): the order in which the
+    load-sequence stream loads them, one after the other, through one loader"""
+    names = sorted(set(p for d in case['dirs'] for p, _ in d)) + ['nope.html']
+    random.Random(json.dumps(case, sort_keys=True)).shuffle(names)
+    return names
+
+
+def load_sequence_real(case, dirs, names):
+    """`loader.load(name).stream` for every name in turn through one TemplateLoader(auto_reload=False), nothing rendered:
+    [[outcome, names of the templates the loader holds prepared afterwards]]"""
+    from genshi.template import TemplateLoader, NewTextTemplate, MarkupTemplate
+    loader = TemplateLoader(list(dirs), auto_reload=False, max_cache_size=200)
+    out = []
+    for name in names:
+        cls = NewTextTemplate if kind_of_file(case, name) == 'text' else MarkupTemplate
+        try:
+            loader.load(name, cls=cls).stream
+            o = 'ok'
+        except Exception as e:  # noqa
+            o = exc_name(e)
+        items = loader._cache._dict
+        out.append([o, sorted(str(k) for k in items if getattr(items[k].value, '_prepared', False))])
+    return out
+
+
 def run_real(case, base):
     """both modes on one materialised tree; returns {'inline': outcome, 'runtime': outcome}"""
     os.makedirs(base, exist_ok=True)
@@ -372,7 +398,8 @@ def run_real(case, base):
         prep = []
         a, b = render_real(case, dirs, False, prep), render_real(case, dirs, True)
         return {'inline': a[0], 'runtime': b[0], 'inline_then': a[1:], 'runtime_then': b[1:],
-                'inline_prepared': prep, 'kept': kept_static_real(case, dirs)}
+                'inline_prepared': prep, 'kept': kept_static_real(case, dirs),
+                'load_seq': load_sequence_real(case, dirs, load_order(case))}
     finally:
         shutil.rmtree(base, ignore_errors=True)
 
@@ -473,7 +500,7 @@ def zone_target_ok(case, T, here, own, n):
     f = find_file(case, resolve(here, h))
     if f is None:
         return n[3] is None or winfree(n[3], T, own)
-    return 'body' in f and winfree(f['body'], T, f['kind'])
+    return 'body' not in f or winfree(f['body'], T, f['kind'])
 
 
 def zone_free(case, nodes, T, here, own, zone=False):
@@ -540,6 +567,103 @@ def in_hypothesis(case):
                 return False
             if f['kind'] == 'text' and not text_ok(f['body']):
                 return False          # a text template that calls a macro
+    return True
+
+
+def in_hypothesis_w(case):
+    """the hypothesis of inline_eq_runtime_illformed_partial (Genshi.Incl.inHW with T = all match tags): in_hypothesis
+    without "every file is a well-formed template" (an ill-formed file has no stream to check)"""
+    T = case_match_tags(case)
+    for d in case['dirs']:
+        for path, f in d:
+            if 'raw' in f:
+                continue
+            if not zone_free(case, f['body'], T, path, f['kind']) or not cls_ok(case, f['body'], path, f['kind']):
+                return False
+            if f['kind'] == 'text' and not text_ok(f['body']):
+                return False
+    return True
+
+
+def winfree_s(nodes, T, own):
+    """window-independent for the specification too (Genshi.Incl.winfreeSL): like winfree, and every include -- also an
+    expression-valued one -- is of a text template"""
+    for n in nodes:
+        k = n[0]
+        if k in ('call', 'select'):
+            return False
+        if k == 'elem':
+            if n[1] in T or not winfree_s(n[2], T, own):
+                return False
+        elif k == 'if':
+            if not winfree_s(n[2], T, own):
+                return False
+        elif k == 'for':
+            if not winfree_s(n[3], T, own):
+                return False
+        elif k == 'include':
+            if CLS.get(n[2], own) != 'text':
+                return False
+            if n[3] is not None and not winfree_s(n[3], T, own):
+                return False
+    return True
+
+
+def zone_target_ok_s(case, T, here, own, n):
+    """Genshi.Incl.zoneTargetOkS"""
+    h = n[1][1]
+    if h.startswith('/'):
+        return True
+    f = find_file(case, resolve(here, h))
+    if f is None:
+        return n[3] is None or winfree_s(n[3], T, own)
+    return 'body' not in f or winfree_s(f['body'], T, f['kind'])
+
+
+def zone_free_s(case, nodes, T, here, own, zone=False):
+    """Genshi.Incl.zoneFreeSL: inside a zone no macro call and includes only of window-independent content"""
+    for n in nodes:
+        k = n[0]
+        if k == 'call' and zone:
+            return False
+        if k == 'include':
+            if zone:
+                if n[1][0] == 'static':
+                    if not zone_target_ok_s(case, T, here, own, n):
+                        return False
+                elif CLS.get(n[2], own) != 'text' or (n[3] is not None and not winfree_s(n[3], T, own)):
+                    return False
+            if n[3] is not None and not zone_free_s(case, n[3], T, here, own, False):
+                return False
+        elif k == 'elem':
+            if not zone_free_s(case, n[2], T, here, own, zone or n[1] in T):
+                return False
+        elif k == 'if':
+            if not zone_free_s(case, n[2], T, here, own, zone):
+                return False
+        elif k == 'for':
+            if not zone_free_s(case, n[3], T, here, own, zone):
+                return False
+        elif k == 'def':
+            if not zone_free_s(case, n[2], T, here, own, False):
+                return False
+        elif k == 'match':
+            if not zone_free_s(case, n[2], T, here, own, True):
+                return False
+    return True
+
+
+def in_hypothesis_s(case):
+    """the hypothesis of runtime_eq_spec_zones_partial (Genshi.Incl.inHS with T = all match tags)"""
+    T = case_match_tags(case)
+    for d in case['dirs']:
+        for path, f in d:
+            if 'raw' in f:
+                continue
+            if not zone_free_s(case, f['body'], T, path, f['kind']):
+                return False
+            if f['kind'] == 'text' and not text_ok(f['body']):
+                return False
     return True
 
 
@@ -970,8 +1094,9 @@ def rand_text(rng):
 
 
 class Gen(object):
-    def __init__(self, rng, zone=False, illformed=False, p_missing=0.12):
+    def __init__(self, rng, zone=False, illformed=False, p_missing=0.12, seq=False):
         self.rng = rng
+        self.seq = seq                # always further requests through the same loader
         self.zone = zone              # allow static includes / calls inside match zones (outside the hypothesis)
         self.illformed = illformed
         self.p_missing = p_missing
@@ -1025,7 +1150,7 @@ class Gen(object):
                 second = [[moved, {'kind': kind_of(moved), 'body': self.shadow_body(moved)}]]
             dirs = [first, second]
         case = {'dirs': dirs, 'entry': names[0], 'data': self.data}
-        if rng.random() < 0.3 and len(names) > 1:
+        if (rng.random() < 0.3 or self.seq) and len(names) > 1:
             # further requests through the same loader: other entries (their templates may already
             # have been prepared inside the first one), other data
             then = []
@@ -1111,7 +1236,8 @@ class Gen(object):
             parse = 'text' if kind_of(to) == 'text' else rng.choice([None, None, 'xml'])
             fb = None
             if rng.random() < 0.4:
-                fb = [] if in_fb or rng.random() < 0.15 else self.nodes(max(0, depth - 1), svars, lvars, False, True)
+                # xi:fallback nesting: a fallback may contain includes with fallbacks of their own, three levels deep
+                fb = [] if int(in_fb) >= 3 or rng.random() < 0.15 else self.nodes(max(0, depth - 1), svars, lvars, False, int(in_fb) + 1)
         dyn_ok = True
         static_ok = self.zone or not zone
         if (not static_ok) or (dyn_ok and rng.random() < 0.22):
@@ -1225,5 +1351,5 @@ class Gen(object):
         return ['text', rand_text(rng)]
 
 
-def gen_case(rng, zone=False, illformed=False):
-    return Gen(rng, zone=zone, illformed=illformed).case()
+def gen_case(rng, zone=False, illformed=False, seq=False):
+    return Gen(rng, zone=zone, illformed=illformed, seq=seq).case()
